@@ -16,7 +16,9 @@ import (
 	"reflect"
 	"runtime"
 	"runtime/debug"
+	"runtime/metrics"
 	"sort"
+	"strconv"
 	"strings"
 	"sync"
 	"testing/synctest"
@@ -80,9 +82,10 @@ type simNode struct {
 	crashAt int // crash when hookHit reaches this (0: never)
 	fatal   []string
 	stalled bool
-	joined  bool // JoinCluster returned: cmd/anndb would now be serving
-	retired bool // removed from the cluster and taken out of service for good
-	limbo   bool // a removal was requested but never acknowledged: the node runs on, nothing is asserted about it
+	joined  bool          // JoinCluster returned: cmd/anndb would now be serving
+	joinAct time.Duration // simulated time of the node's last join activity (handshake begun or returned), -1: none
+	retired bool          // removed from the cluster and taken out of service for good
+	limbo   bool          // a removal was requested but never acknowledged: the node runs on, nothing is asserted about it
 }
 
 type simCall struct {
@@ -149,6 +152,8 @@ type Sim struct {
 	wantLog bool
 	applies []applyRec
 	steps   int
+	gcNext  uint64 // heap size at which the driver collects garbage (at quiescence)
+	gcs     int
 	stopped bool
 	// observers
 	onRaftMsg      func(from *simNode, to uint64, group uuid.UUID, m raftpb.Message)
@@ -310,7 +315,11 @@ func newSim(cfg W3Cfg, out *Outcome, wantLog bool) *Sim {
 	raft.VerifSetSnapshotOffset(so)
 	yp := cfg.YieldP
 	yseed := s.ryield.Uint64()
+	ytraceOn := os.Getenv("VERIF_YTRACE") != ""
 	simrt.YieldFn = func(site int) {
+		if ytraceOn { // development aid: the interleaving of all yield points, for diffing two executions
+			ytrace = append(ytrace, fmt.Sprintf("%d %d s%d t=%v", runtimeVerifGetTag(), goid(), site, time.Since(s.t0)))
+		}
 		if yp > 0 {
 			// a function of the seed, the goroutine's label and its own draw count: no shared stream
 			z := mix64(yseed ^ runtimeVerifGetTag()*0x9e3779b97f4a7c15 ^ runtimeVerifNextCount()<<20 ^ uint64(site))
@@ -447,7 +456,7 @@ func (s *Sim) close() {
 
 func (s *Sim) addNode(join []int) *simNode {
 	i := len(s.nodes) + 1
-	n := &simNode{idx: i, id: uint64(i), port: fmt.Sprintf("%d", 17000+i), dead: map[int]bool{}}
+	n := &simNode{idx: i, id: uint64(i), port: fmt.Sprintf("%d", 17000+i), dead: map[int]bool{}, joinAct: -1}
 	n.addr = ":" + n.port
 	n.dir = filepath.Join(s.baseDir, fmt.Sprintf("node%d", i))
 	os.MkdirAll(n.dir, 0755)
@@ -532,6 +541,7 @@ func (s *Sim) startNode(n *simNode) error {
 	if len(n.join) > 0 {
 		srv := n.server
 		inc := n.inc
+		n.joinAct = s.now()
 		go func() {
 			runtimeVerifSetTag(n.id*1000 + uint64(inc))
 			simrt.Y(0)
@@ -541,6 +551,7 @@ func (s *Sim) startNode(n *simNode) error {
 					return
 				}
 				s.logf("n%d JoinCluster -> %v", n.idx, err)
+				n.joinAct = s.now()
 				if err != nil {
 					// cmd/anndb: log.Fatal(err) - the process exits during start-up
 					s.out.Stat("startup_join_failed_process_exits", 1)
@@ -1109,6 +1120,39 @@ func (s *Sim) pump() {
 
 const simQuantum = 10 * time.Millisecond
 
+var ytrace []string
+
+func goid() int {
+	var buf [40]byte
+	n := runtime.Stack(buf[:], false)
+	f := strings.Fields(string(buf[:n]))
+	if len(f) > 1 {
+		id, _ := strconv.Atoi(f[1])
+		return id
+	}
+	return 0
+}
+
+var heapSample = []metrics.Sample{{Name: "/memory/classes/heap/objects:bytes"}}
+
+// maybeGC collects garbage at an instant at which every other goroutine of the bubble
+// is durably blocked. Opening a Badger database allocates some 350 MB (mostly never
+// touched); leaving that to the collector's own pacing would start collections at
+// arbitrary instants of the run, and a collection in flight preempts and reorders
+// goroutines as a function of real time.
+func (s *Sim) maybeGC(force bool) {
+	if !force {
+		metrics.Read(heapSample)
+		if heapSample[0].Value.Uint64() < s.gcNext {
+			return
+		}
+	}
+	runtime.GC()
+	metrics.Read(heapSample)
+	s.gcNext = heapSample[0].Value.Uint64() + 768<<20
+	s.gcs++
+}
+
 // reapZombies stops raft groups that a goroutine of a crashed incarnation
 // started after the crash (e.g. an allocator that was waiting for a lock): the
 // incarnation's database is closed, nothing of it may run a raft loop.
@@ -1129,6 +1173,9 @@ func (s *Sim) reapZombies() {
 func (s *Sim) step() {
 	s.steps++
 	s.pump()
+	if s.steps%32 == 0 {
+		s.maybeGC(false)
+	}
 	if len(s.deadTransports) > 0 {
 		s.reapZombies()
 	}
